@@ -11,17 +11,18 @@ MANIFEST = {
             "source-map name) for the class-name writer. C09_class_exact_rule: for EVERY qualified rule (prelude with blocks/functions "
             "nested to any depth, comments anywhere, any declaration block) the identifier / sign-comment sequence "
             "written equals the specification's (every `.name` in selector context prefixed and signed, nothing else) "
-            "- induction over both walkers. C09_class_exact_sheet: the same for WHOLE SHEETS of every size and depth (rule "
-            "splitting, at-rule preludes and their blocks, rule lists nested in every rule-bearing at-rule), for every option "
-            "set without @import / :host rewriting and every well-shaped tree whose rules are complete - lockstep induction "
-            "of the walker `rules` against the specification `rules_spec`. With the rewrites on, the whole-sheet statement "
-            "was refuted by D13 and then by D25; both are repaired and their witnesses satisfy it "
-            "(C09_former_witnesses_now_exact). Each run compares the identifier / "
+            "- induction over both walkers. C09_class_exact_sheet: the same for WHOLE SHEETS of every size and depth and EVERY "
+            "option set (prefix, sign, import sign, host conversion): rule splitting, at-rule preludes and their blocks, rule "
+            "lists nested in every rule-bearing at-rule, the @import walkers (target, layer / layer() / supports() conditions, "
+            "media query, placeholder, wrappers) and the :host classification - lockstep induction of the walker `rules` "
+            "against the specification `rules_spec`, for every well-shaped tree whose rules the specification finds complete. "
+            "(The statement was refuted by D13 and by D25 before their repair: C09_former_witnesses_now_exact.) Each run compares the identifier / "
             "sign-comment sequence of the re-tokenised implementation output with the specification's for every "
             "well-formed generated sheet outside the known classes, for prefixes none/empty/ASCII/non-ASCII/needing escapes.",
-    "note": "NOT proved: the whole-sheet statement with an import sign or host conversion configured (@import conditions, "
-            ":host wrappers) - differential (spec vs implementation output on each run; no known class touches "
-            "identifiers any more: D13 D14 D25 were repaired in /repo).",
+    "note": "The theorem speaks about the normal output of the model; the tie to the implementation is the byte-exact "
+            "model/implementation correspondence of every run plus the spec-vs-implementation comparison (no known class touches "
+            "identifiers: D13 D14 D25 were repaired in /repo). Not covered by the theorem: the identifiers of the low-priority "
+            "output (host rules), sheets with incomplete rules (malformed).",
     "technique": "Coq proof by induction over token trees + executable-spec conformance of the "
                  "implementation output",
 }
